@@ -119,6 +119,17 @@ fn bias_sweep(b: usize, step: f64) -> (u64, f64, f64, Vec<Viol>, Vec<serde_json:
     let (mut worst_out, mut worst_in) = (0.0f64, 0.0f64);
     let mut viols: Vec<Viol> = vec![];
     let mut rows = vec![];
+    // the yardstick itself: the standard error of HyperLogLog is beta_m / sqrt(m) with beta_m >= 1.03896
+    // (Flajolet et al. 2007, Theorem 1; beta_16 = 1.106 ... beta_inf = 1.03896). An advertised
+    // relative_error() below that cannot bound the RMS, whatever the estimator does.
+    {
+        let h = build(b, vec![0u8; 1usize << b]);
+        let adv = h.relative_error() * m.sqrt();
+        evals += 1;
+        if !(adv >= 0.98 * 1.03896) {
+            viols.push(Viol { property: "C03".into(), signature: "hll relative_error below the HLL standard error".into(), message: format!("b={}: relative_error() * sqrt(m) = {:.4}, but the standard error of HyperLogLog is at least 1.039 / sqrt(m): the advertised error cannot bound the RMS of count()", b, adv), replay: json!({"structure": "HyperLogLog", "b": b, "relative_error": h.relative_error(), "m": m}) });
+        }
+    }
     while n <= 50.0 * m {
         let nn = n.round().max(1.0);
         let regs = canonical_registers(b, nn);
